@@ -47,6 +47,7 @@ LEVELS = (1, 2, 4)
 EPS = 2.3e-16
 TOL_FD = 1e-6
 THICKNESS = 0.7
+J_MIN = 0.05  # assumption guard: states with det F below this at a Gauss point are skipped and counted
 
 STRETCHES = (0.8, 1.0, 1.3)
 ROTS = ["R0", "R90", "Rgen", "R180"]
@@ -134,10 +135,12 @@ def letter_field(dim, X, letter):
 # ------------------------------------------------------------------------------------------------
 # laws
 # ------------------------------------------------------------------------------------------------
-def fibres(dim):
+def fibres(dim, tilted=False):
+    """unit fibre directions T1 perpendicular to T2; 2D: in the plane, or (tilted) T1 raised 0.2 rad out of the plane."""
     if dim == 2:
         t = rng("c18fibre", 2).uniform(0.2, 1.3)
-        return np.array([np.cos(t), np.sin(t), 0.0]), np.array([-np.sin(t), np.cos(t), 0.0])
+        p = 0.2 if tilted else 0.0
+        return (np.array([np.cos(t) * np.cos(p), np.sin(t) * np.cos(p), np.sin(p)]), np.array([-np.sin(t), np.cos(t), 0.0]))
     r = rng("c18fibre", 3)
     T1 = r.normal(size=3)
     T1 /= np.linalg.norm(T1)
@@ -177,7 +180,7 @@ def _user_energy(C, T):
             + 0.25 * 0.6 * (I4 - 1) ** 2 + 0.5 * 0.35 * (I2 * J ** (-4 / 3) - 3))
 
 
-def make_law(name, dim):
+def make_law(name, dim, tilted=False):
     from EasyFEA import Models
 
     HE = Models.HyperElastic
@@ -190,7 +193,7 @@ def make_law(name, dim):
     if name == "SaintVenantKirchhoff":
         return HE.SaintVenantKirchhoff(dim, lmbda=1.2, mu=0.8, K=0.5, thickness=THICKNESS)
     if name == "HolzapfelOgden":
-        T1, T2 = fibres(dim)
+        T1, T2 = fibres(dim, tilted)
         return HE.HolzapfelOgden(dim, C0=0.6, C1=1.1, C2=0.8, C3=0.9, C4=0.5, C5=0.7, C6=0.3, C7=0.6, K=2.5, Mu1=0.4, Mu2=0.3,
                                  T1=T1, T2=T2, thickness=THICKNESS)
     if name == "AutoDiff":
@@ -336,6 +339,9 @@ def cases(tier, seed):
             if not thorough and law == "AutoDiff" and not default_et:
                 continue  # quick: the jax law (3 s of compilation per case) on the default element types only
             out.append({"kind": "material", "law": law, "elemType": et, "letters": "full" if (thorough or default_et) else "reduced"})
+            if law == "HolzapfelOgden" and Z.dim_of(et) == 2 and (thorough or default_et):
+                # plane strain with a fibre that is not in the plane (still T1 perpendicular to T2, unit length)
+                out.append({"kind": "material", "law": law, "elemType": et, "letters": "reduced", "fibres": "tilted"})
     # --- operators: level of the state/variant alphabet
     def level(et, default_et):
         return "full" if (thorough or default_et) else "reduced"
@@ -388,13 +394,16 @@ def describe(tier, seed):
                 "invariant checked after every step. non-trivial = some state of the case carries stress > 1e-3 of the reference stiffness "
                 "(operator: non-zero tangent; energy: stored energy exchanged > 1e-3 E0); distinct = fingerprint of W / tangents / energy history",
         "exhaustive": True,
-        "bound": ("full product law x element type x deformation alphabet x dof; operators: full product operator x law x element type x variants; "
-                  "energy: 6 laws x {Q4x2, TET4x6} + default law x {T3x2, H8x2}, x 3 velocities x 2 dt x 2 stresses, 200 steps"
+        "bound": ("full product law x element type x deformation alphabet x dof (+ tilted fibres on every 2D type); operators: full product "
+                  "operator x law x element type x full state/variant alphabet; energy: 6 laws x {Q4x2, TET4x6} + default law x {T3x2, H8x2}, "
+                  "x 3 velocities x 2 dt x 2 stresses, 200 steps"
                   if thorough else
-                  "deviation bound 1 from the default (MooneyRivlin, QUAD4 / HEXA8): every law on the default element types with the FULL "
-                  "deformation alphabet; every other element type x every law with the reduced alphabet (6 letters incl. the inhomogeneous field); "
-                  "operators: every law on the default types, every type with the default law; energy: full (velocity x dt x stress) on the "
-                  "default (law, mesh), (dt x stress) for every other law and every other mesh, 20 steps"),
+                  "deviation bound 1 from the default (MooneyRivlin, QUAD4 / HEXA8) over (law, element type), completed by the reduced-alphabet "
+                  "product: every law on the default element types with the FULL deformation alphabet (57 letters in 2D, 129 in 3D); every other "
+                  "element type x every shipped law with the reduced alphabet (7 letters incl. a rotated one and the inhomogeneous field; the jax law "
+                  "only on the default types); operators: every law on the default types with the full state/variant alphabet, every other type with "
+                  "the default law and the reduced alphabet; energy: full (velocity x dt x stress) on the default (law, mesh), (dt x stress) for every "
+                  "other law and every other mesh, 20 steps"),
         "alphabet": {"laws": len(LAWS), "element_types": len(BULK_TYPES), "surface_types": len(SURF_TYPES) + len(SEG_TYPES),
                      "deformation_letters_2d": len(full_letters(2)), "deformation_letters_3d": len(full_letters(3)),
                      "rotations": len(ROTS), "operators": 7, "fd_levels": len(LEVELS),
@@ -406,7 +415,8 @@ def describe(tier, seed):
             "tolerance 1e-6 relative to (|S| + 1e-3 s0) |F| |grad du| (s0 = |D| at u = 0) for dW, to |D| |F| |grad du| for dS, to max|K_e| for tangents; "
             "1e-10 relative for objectivity; 1e-12 s0 for the reference state",
             "admissible states: det F > 0 at every Gauss point (other states skipped and counted)",
-            "HolzapfelOgden: T1 perpendicular to T2, in-plane fibres in 2D; AutoDiff: jax float64 enabled (Enable_x64) before the law is built",
+            "HolzapfelOgden: unit T1 perpendicular to unit T2; 2D: fibres in the plane, plus one case per element type with T1 raised 0.2 rad out of "
+            "the plane (plane strain, C padded with C33 = 1); AutoDiff: jax float64 enabled (Enable_x64) before the law is built",
             "PenaltyContact: planar obstacle (the operator documents that curvature terms are dropped), gap bounded away from 0; "
             "FollowingPressure / PenaltyContact follow the documented slot convention K -> slot K, R -> slot F, i.e. K = -dR/du",
             "TimeQuadratureStressTensor with a tolerance: the tangent is compared only where all perturbed copies accepted the same rule",
@@ -562,8 +572,11 @@ def _run_material(case):
     Xe = X[con]
     g0 = make_group(et, Xe)
     stack = Stack(et, Xe, dim)
-    mat = make_law(law, dim)
+    tilted = case.get("fibres") == "tilted"
+    mat = make_law(law, dim, tilted)
     key = dict(law=law, elemType=et)
+    if tilted:
+        key["fibres"] = "tilted"
     out = {"viol": [], "ops": 0, "entries": 0, "inconclusive": 0, "inadmissible": 0, "trunc": 0.0}
     D_ref = _np(mat.Compute_d2Wde(state_of(g0, np.zeros(Xe.shape[0] * Xe.shape[1] * dim))))
     if not np.all(np.isfinite(D_ref)) or np.abs(D_ref).max() <= 0:
@@ -592,9 +605,9 @@ def _run_material(case):
                     out["viol"].append(viol("objectivity", f"{et} {law}: {nm}(QF) differs from {nm}(F) by {err:.3e} (|{nm}| = {np.abs(c).max():.3e}) "
                                                            f"for F = {b}, Q = {r}", quantity=nm, **k))
     ninc = out["inconclusive"]
-    return {"violations": _cap(out["viol"]), "fingerprint": fp(law, et, case["letters"], np.array(obs)), "nontrivial": stressed,
+    return {"violations": _cap(out["viol"]), "fingerprint": fp(law, et, case["letters"], tilted, np.array(obs)), "nontrivial": stressed,
             "transitions": out["ops"], "states": len(obs),
-            "outcome": "ok" if not out["viol"] else "violation",
+            "outcome": "violation" if out["viol"] else ("ok" if not ninc else "ok_some_entries_inconclusive"),
             "skipped": None if obs else "no admissible state",
             "info": {"entries": out["entries"], "inconclusive_entries": ninc, "max_truncation_rel": out["trunc"], "inadmissible": out["inadmissible"]}}
 
@@ -662,9 +675,6 @@ def _vec(fe):
     return np.ascontiguousarray(fe.reshape(-1))
 
 
-J_MIN = 0.05  # assumption guard: states with det F below this at a Gauss point are skipped and counted
-
-
 def _admissible(g0, fe, dim):
     G, _ = harness_grad(g0, fe, dim)
     return np.linalg.det(np.eye(3) + G).min() > J_MIN
@@ -676,7 +686,8 @@ def _new_info():
 
 def _op_result(tag, v, info, ntr, skipped_msg):
     return {"violations": _cap(v), "fingerprint": fp(*tag, np.array(info["obs"])), "nontrivial": info["nonzero"],
-            "transitions": ntr, "states": len(info["obs"]), "outcome": "ok" if not v else "violation",
+            "transitions": ntr, "states": len(info["obs"]),
+            "outcome": "violation" if v else ("ok" if not (info["kinks"] or info["inconclusive"] or info["inadmissible"]) else "ok_some_variants_inconclusive"),
             "skipped": None if info["obs"] or v else skipped_msg,
             "info": {k: info[k] for k in ("entries", "inconclusive", "trunc", "kinks", "inadmissible")}}
 
